@@ -80,13 +80,12 @@ Section Whole.
   Qed.
 
   (* _calc_view_revisions for the whole history, newest first, with merges *)
-  Lemma calc_view_whole_reverse delayed_irrelevant :
-    calc_view b None None false true false false = (map whole_view ms, None) /\
-    delayed_irrelevant = delayed_irrelevant.
+  Lemma calc_view_whole_reverse :
+    calc_view b None None false true false false = (map whole_view ms, None).
   Proof.
-    split; [|reflexivity]. unfold calc_view. cbn [andb oeqb]. rewrite T. cbn [negb].
+    unfold calc_view. cbn [andb oeqb]. rewrite T. cbn [negb].
     unfold generate_all. cbn [andb]. unfold graph_view. cbn [negb]. rewrite iter_whole.
-    rewrite (rebase_initial_head0 _ ms_head0). reflexivity.
+    fold ms. rewrite (rebase_initial_head0 _ ms_head0). reflexivity.
   Qed.
 
   Lemma whole_view_id l : map v_id (map whole_view l) = map m_id l.
@@ -103,7 +102,7 @@ Section Whole.
     log_revisions b None None false 0 0 false = (map whole_view ms, None).
   Proof.
     unfold log_revisions. rewrite limits_none. cbn [Nat.eqb negb orb].
-    rewrite (proj1 (calc_view_whole_reverse 0)).
+    rewrite calc_view_whole_reverse.
     apply log_batches_all; [lia | lia | intros; left; reflexivity].
   Qed.
 
@@ -165,3 +164,193 @@ Section Whole.
     apply reverse_by_depth_involutive; [apply whole_views_wf | apply whole_views_revno].
   Qed.
 End Whole.
+
+(* ---- level 1 = the left-hand history --------------------------------------------------------- *)
+
+Lemma count_down_ids n l : map v_id (count_down n l) = l.
+Proof. revert n. induction l as [|r l IH]; intros n; cbn [count_down map]; [reflexivity|]. rewrite IH. reflexivity. Qed.
+
+Lemma count_down_depth n l v : In v (count_down n l) -> v_depth v = 0.
+Proof.
+  revert n. induction l as [|r l IH]; intros n; cbn [count_down]; [contradiction|].
+  intros [<-|H]; [reflexivity | apply (IH _ H)].
+Qed.
+
+Lemma count_down_nth n l i r : nth_error l i = Some r ->
+  nth_error (count_down n l) i = Some ((r, Some [n - i]), 0).
+Proof.
+  revert n i. induction l as [|x l IH]; intros n i; [destruct i; discriminate|].
+  destruct i as [|i]; cbn [nth_error count_down].
+  - intros H. injection H as ->. rewrite Nat.sub_0_r. reflexivity.
+  - intros H. rewrite (IH (n - 1) i H). replace (n - 1 - i) with (n - S i) by lia. reflexivity.
+Qed.
+
+Section Level1.
+  Variable b : branch.
+  Variable t : revid.
+  Hypothesis T : br_tip b = Some t.
+
+  Lemma calc_view_level1 forward delayed :
+    calc_view b None None forward false delayed false =
+    ((if forward then rev (count_down (last_revno b) (lh b)) else count_down (last_revno b) (lh b)), None).
+  Proof.
+    unfold calc_view. cbn [andb oeqb]. rewrite T. cbn [negb linear_view andb orb].
+    destruct forward; reflexivity.
+  Qed.
+
+  (* log -n1 of the whole branch: exactly the left-hand history, newest first,
+     numbered last_revno, last_revno - 1, ... *)
+  Theorem log_level1_reverse :
+    log_revisions b None None false 1 0 false = (count_down (last_revno b) (lh b), None).
+  Proof.
+    unfold log_revisions, revision_limits. rewrite T. cbn [limit_revno Nat.eqb negb orb].
+    rewrite calc_view_level1.
+    apply log_batches_all; [lia | lia | intros v Hv; right; rewrite (count_down_depth _ _ v Hv); lia].
+  Qed.
+
+  Theorem log_level1_forward :
+    log_revisions b None None true 1 0 false = (rev (count_down (last_revno b) (lh b)), None).
+  Proof.
+    unfold log_revisions, revision_limits. rewrite T. cbn [limit_revno Nat.eqb negb orb].
+    rewrite calc_view_level1.
+    apply log_batches_all; [lia | lia |].
+    intros v Hv. right. apply in_rev in Hv. rewrite (count_down_depth _ _ v Hv). lia.
+  Qed.
+
+  Corollary log_level1_is_lefthand :
+    map v_id (fst (log_revisions b None None false 1 0 false)) = lefthand (br_g b) t /\
+    map v_id (fst (log_revisions b None None true 1 0 false)) = rev (lefthand (br_g b) t).
+  Proof.
+    rewrite log_level1_reverse, log_level1_forward. cbn [fst]. rewrite map_rev, count_down_ids.
+    unfold lh. rewrite T. split; reflexivity.
+  Qed.
+End Level1.
+
+(* the level filter applied to the merge-sorted view gives the same revisions
+   as the linear fast path *)
+Lemma depth0_with_eom g l :
+  map m_id (filter (fun e => m_depth e =? 0) (with_eom g l)) = map e_id (depth0 l).
+Proof.
+  induction l as [|e l IH]; [reflexivity|]. cbn [with_eom filter depth0].
+  unfold m_depth at 1. cbn [fst]. fold (depth0 l).
+  destruct (e_depth e =? 0); cbn [map]; rewrite IH; reflexivity.
+Qed.
+
+Theorem linear_eq_graph_whole b t : wf_dag (br_g b) = true -> br_tip b = Some t ->
+  t < length (br_g b) -> lefthand_present (br_g b) t = true ->
+  map v_id (filter (fun v => v_depth v <? 1) (fst (log_revisions b None None false 0 0 false))) =
+  map v_id (fst (log_revisions b None None false 1 0 false)).
+Proof.
+  intros W T L P. rewrite (log_whole_reverse b t W T L), (log_level1_reverse b t T). cbn [fst].
+  rewrite count_down_ids. unfold lh. rewrite T. cbn [lefthand_opt].
+  rewrite <- (depth0_is_lefthand (br_g b) t W L P), <- (depth0_with_eom (br_g b)).
+  fold (merge_sort (br_g b) (Some t)).
+  induction (merge_sort (br_g b) (Some t)) as [|e l IH]; [reflexivity|].
+  cbn [map filter]. unfold whole_view at 1, view_of, v_depth. cbn [snd].
+  destruct (m_depth e) as [|d]; cbn [Nat.ltb Nat.leb Nat.eqb map]; [f_equal|]; exact IH.
+Qed.
+
+(* ---- ranges on the linear path ------------------------------------------------------------------ *)
+
+Definition mk_view (b : branch) (r : revid) : view := ((r, compute_revno b r), 0).
+
+Lemma lin_walk_found b s excl pre post : ~ In s pre ->
+  lin_walk b (Some s) excl (pre ++ s :: post) =
+  (map (mk_view b) pre ++ (if excl then [] else [mk_view b s]), true).
+Proof.
+  induction pre as [|r pre IH]; intros N; cbn [app lin_walk map oeqb].
+  - rewrite Nat.eqb_refl. reflexivity.
+  - assert (E : (s =? r) = false) by (apply Nat.eqb_neq; intros ->; apply N; left; reflexivity).
+    rewrite E, IH; [reflexivity | intros X; apply N; right; exact X].
+Qed.
+
+Lemma lin_walk_not_found b s excl l : ~ In s l -> lin_walk b (Some s) excl l = (map (mk_view b) l, false).
+Proof.
+  induction l as [|r l IH]; intros N; cbn [lin_walk map oeqb]; [reflexivity|].
+  assert (E : (s =? r) = false) by (apply Nat.eqb_neq; intros ->; apply N; left; reflexivity).
+  rewrite E, IH; [reflexivity | intros X; apply N; right; exact X].
+Qed.
+
+(* a range whose start is on the left-hand history of its end: exactly the segment between them *)
+Theorem linear_view_range b s e pre post excl : wf_dag (br_g b) = true ->
+  lefthand (br_g b) e = pre ++ s :: post ->
+  linear_view b (Some s) (Some e) excl =
+  (map (mk_view b) pre ++ (if excl then [] else [mk_view b s]), None).
+Proof.
+  intros W E. unfold linear_view. cbn [lefthand_opt]. rewrite E.
+  assert (N : ~ In s pre).
+  { pose proof (lefthand_NoDup (br_g b) e W) as ND. rewrite E in ND.
+    apply NoDup_remove_2 in ND. intros X. apply ND. apply in_or_app. left. exact X. }
+  rewrite (lin_walk_found b s excl pre post N). reflexivity.
+Qed.
+
+(* ... and a start that is not there ends the generator with the internal exception *)
+Theorem linear_view_not_found b s e excl : ~ In s (lefthand (br_g b) e) ->
+  linear_view b (Some s) (Some e) excl =
+  (map (mk_view b) (lefthand (br_g b) e), Some StartNotLinearAncestor).
+Proof.
+  intros N. unfold linear_view. cbn [lefthand_opt]. rewrite (lin_walk_not_found b s excl _ N). reflexivity.
+Qed.
+
+Theorem calc_view_range_level1 b tip s e pre post forward delayed : wf_dag (br_g b) = true ->
+  br_tip b = Some tip -> s <> e -> lefthand (br_g b) e = pre ++ s :: post ->
+  calc_view b (Some s) (Some e) forward false delayed false =
+  ((if forward then rev (map (mk_view b) (pre ++ [s])) else map (mk_view b) (pre ++ [s])), None).
+Proof.
+  intros W T Ne E. unfold calc_view. cbn [andb oeqb]. rewrite T.
+  rewrite (proj2 (Nat.eqb_neq s e) Ne). cbn [andb negb].
+  rewrite (linear_view_range b s e pre post false W E). rewrite map_app. cbn [map].
+  destruct forward; cbn [orb]; [reflexivity|].
+  destruct (is_obvious_ancestor b (Some s) (Some e)); reflexivity.
+Qed.
+
+(* ---- the escaping internal exception ------------------------------------------------------------- *)
+
+(* the only way _StartNotLinearAncestor can come out of _calc_view_revisions *)
+Theorem calc_view_internal_error_guarded b start end_ forward gen_merge delayed excl :
+  snd (calc_view b start end_ forward gen_merge delayed excl) = Some StartNotLinearAncestor ->
+  forward = false /\ gen_merge = false /\ (exists s, start = Some s) /\
+  is_obvious_ancestor b start end_ = true /\
+  snd (linear_view b start end_ excl) = Some StartNotLinearAncestor.
+Proof.
+  unfold calc_view.
+  destruct (excl && oeqb start end_); [discriminate|].
+  destruct (br_tip b); [|discriminate].
+  assert (Slow : forall u, snd (match generate_all b start end_ forward delayed excl with
+                  | inl vs => (if forward then rebase_merge_depth (reverse_by_depth
+                       (fun a : revid * option revno => match snd a with Some _ => true | None => false end) vs) else vs, None)
+                  | inr e => ([], Some e) end) = Some StartNotLinearAncestor -> u).
+  { intros u. unfold generate_all.
+    destruct delayed.
+    - destruct (linear_view b start end_ excl) as [lin err].
+      destruct (split_at_merge (br_g b) lin) as [ini [mr|]].
+      + destruct start as [s|]; [destruct end_ as [e|]; [destruct (is_ancestor (br_g b) s e)|]|]; discriminate.
+      + destruct err; discriminate.
+    - destruct (excl && match end_ with None => true | Some _ => false end); discriminate. }
+  destruct (match end_ with
+            | Some e => if oeqb start end_ && (negb gen_merge || negb (has_merges (br_g b) e)) then Some e else None
+            | None => None end); [discriminate|].
+  destruct gen_merge; cbn [negb]; [apply Slow|].
+  destruct (linear_view b start end_ excl) as [lin err] eqn:El.
+  destruct forward; cbn [orb].
+  - destruct err; [apply Slow | discriminate].
+  - destruct start as [s|]; cbn [andb].
+    + destruct (is_obvious_ancestor b (Some s) end_) eqn:O; cbn [negb].
+      * cbn [snd]. intros ->. repeat split. exists s. reflexivity.
+      * destruct err; [apply Slow | discriminate].
+    + cbn [snd]. intros ->. exfalso. unfold linear_view in El.
+      destruct end_ as [e|].
+      * destruct (lin_walk b None excl (lefthand_opt (br_g b) (Some e))). rewrite orb_true_r in El. discriminate.
+      * discriminate.
+Qed.
+
+(* the witness: r3 = 1.1.1 and r4 = 1.2.1 are two branches off revision 1 *)
+Definition leak_branch : branch := mkBr [[]; [0]; [1]; [0]; [0]; [2; 3]; [5; 4]] (Some 6) [].
+
+Theorem internal_error_leaks :
+  wf_dag (br_g leak_branch) = true /\
+  revision_id_to_dotted_revno leak_branch (Some 3) = Ok [1; 1; 1] /\
+  revision_id_to_dotted_revno leak_branch (Some 4) = Ok [1; 2; 1] /\
+  snd (log_revisions leak_branch (Some 3) (Some 4) false 1 0 false) = Some StartNotLinearAncestor /\
+  snd (log_revisions leak_branch (Some 3) (Some 4) false 0 0 false) = Some StartNotInHistory.
+Proof. vm_compute. repeat split. Qed.
